@@ -5,4 +5,4 @@ using namespace simd;
 using sdbm_t = split_dbm_domain<z_number, varname_t, G_int64>;
 using D = numerical_packing_domain<sdbm_t>;
 SIM_REGISTER_DOMAIN(packing_zones, D, "packing_zones",
-                    CAP_INT64 | CAP_NTOW)
+                    CAP_INT64 | CAP_NTOW | CAP_BACKWARD)
